@@ -229,6 +229,8 @@ def _eval_in(col, case, d):
         opts0 = dict(opts)
         if st["kind"] == "file":
             opts0["gzip"] = prev["gzip"]
+            if "flat" in prev:
+                opts0["flat"] = prev["flat"]
         try:
             with sandbox.quiet(), np.errstate(all="ignore"):
                 volume_reader.volume_file_to_precomputed(
@@ -440,6 +442,17 @@ def cases(tier):
                     layout=layout, in_dtype="uint16", out_dtype="uint16",
                     fill="position", encoding="raw", storage=st,
                     previous={"gzip": prev_gzip}))
+    # an earlier conversion with the flat layout, then one with the default
+    # (sub-directory) layout: the new chunks are the ones that are read
+    # (the opposite order is not supported by the reader and not demanded)
+    for g0 in (True, False):
+        for g1 in (True, False):
+            out.append(base_case(
+                kind="storage", shape=[5, 4, 3], chunk=[2, 2, 2],
+                layout="3d", in_dtype="uint16", out_dtype="uint16",
+                fill="position", encoding="raw",
+                storage={"kind": "file", "flat": False, "gzip": g1},
+                previous={"gzip": g0, "flat": True}))
     return out
 
 
